@@ -515,27 +515,19 @@ Section Proofs.
     destruct o; [contradiction|reflexivity|reflexivity].
   Qed.
 
-  Definition miss_entry (s : state) (now : Z) (outs : list fetch_outcome) : entry :=
-    let '(last, prov) := fold_left fetch_fold outs ((-1)%Z, None) in
-    Entry prov (match prov with None => Some (now + ttl)%Z | Some _ => None end) last (st_seq s) (st_seq s) false.
+  Notation miss_entry := (miss_entry ttl).
+  Notation miss := (miss need_merge ttl).
 
   Lemma get_miss_unfold now pid outs s :
-    view s pid = None ->
-    get now pid outs s =
-    (finish (st_seq s) (<[pid := miss_entry s now outs]> (st_write s))
-            (<[pid := e_prov (miss_entry s now outs)]> (st_ru s)) (st_rm s),
-     RGet (e_prov (miss_entry s now outs)) (length outs)).
-  Proof.
-    intro Hv. unfold C06_PCache.get, miss_entry. rewrite Hv.
-    destruct (fold_left fetch_fold outs ((-1)%Z, None)) as [last prov]. reflexivity.
-  Qed.
+    view s pid = None -> get now pid outs s = miss now pid outs s.
+  Proof. intro Hv. unfold C06_PCache.get. rewrite Hv. reflexivity. Qed.
 
   Lemma get_hit now pid outs s v : view s pid = Some v -> get now pid outs s = (s, RGet v 0).
   Proof. intro Hv. unfold C06_PCache.get. rewrite Hv. reflexivity. Qed.
 
   Lemma miss_entry_ok s now outs : Forall wf_fetch outs -> entry_ok (miss_entry s now outs) /\ e_dirty (miss_entry s now outs) = false /\ e_seq (miss_entry s now outs) = st_seq s.
   Proof.
-    intro Hwf. unfold miss_entry.
+    intro Hwf. unfold C06_PCache.miss_entry.
     pose proof (fetch_fold_spec outs ((-1)%Z, None) Hwf eq_refl) as H. cbn zeta in H.
     destruct (fold_left fetch_fold outs ((-1)%Z, None)) as [last prov]. cbn in *.
     split_and!; try reflexivity. unfold entry_ok; cbn. destruct prov as [r|].
@@ -548,15 +540,15 @@ Section Proofs.
     visible s' q = visible s q /\
     (is_Some (st_write s !! q) -> forall v, view s q = Some v -> view s' q = Some v).
 
-  Lemma get_miss_spec now pid outs s :
-    Inv s -> view s pid = None ->
-    let s' := (get now pid outs s).1 in
+  Lemma miss_spec now pid outs s :
+    Inv s ->
+    let s' := (miss now pid outs s).1 in
     st_write s' !! pid = Some (miss_entry s now outs) /\
     view s' pid = Some (e_prov (miss_entry s now outs)) /\
     st_seq s' = st_seq s /\
     forall q, q <> pid -> st_write s' !! q = st_write s !! q /\ keeps_w s s' q.
   Proof.
-    intros HI Hv s'. unfold s'. rewrite (get_miss_unfold _ _ _ _ Hv). cbn [fst].
+    intros HI s'. unfold s', C06_PCache.miss. cbn [fst].
     set (e := miss_entry s now outs).
     destruct (finish_write (st_seq s) (<[pid := e]> (st_write s)) (<[pid := e_prov e]> (st_ru s)) (st_rm s)) as [Hfw Hfs].
     split_and!.
@@ -575,23 +567,45 @@ Section Proofs.
         apply finish_view_some; [rewrite lookup_insert_ne by done; exact Hin|]. rewrite Hsame. exact Hvq.
   Qed.
 
+  Lemma get_miss_spec now pid outs s :
+    Inv s -> view s pid = None ->
+    let s' := (get now pid outs s).1 in
+    st_write s' !! pid = Some (miss_entry s now outs) /\
+    view s' pid = Some (e_prov (miss_entry s now outs)) /\
+    st_seq s' = st_seq s /\
+    forall q, q <> pid -> st_write s' !! q = st_write s !! q /\ keeps_w s s' q.
+  Proof. intros HI Hv. rewrite (get_miss_unfold _ _ _ _ Hv). apply miss_spec, HI. Qed.
+
+  Lemma Inv_miss s now pid outs : Inv s -> Forall wf_fetch outs -> Inv (miss now pid outs s).1.
+  Proof.
+    intros HI Hwf.
+    destruct (miss_spec now pid outs s HI) as (Hw & Hview & Hseq & Hoth).
+    destruct (miss_entry_ok s now outs Hwf) as (Hok & Hd & Hsq).
+    set (s' := (miss now pid outs s).1) in *.
+    destruct HI as [HI1 HI2]. split.
+    + intros q e He. destruct (decide (q = pid)) as [->|Hne].
+      * rewrite Hw in He. inversion He; subst e. split_and!; [exact Hok|rewrite Hseq, Hsq; lia|].
+        intros _. exact Hview.
+      * destruct (Hoth q Hne) as [Hwq [_ Hk]]. rewrite Hwq in He.
+        destruct (HI1 q e He) as (A & B & C). split_and!; [exact A|rewrite Hseq; exact B|].
+        intro Hdd. apply Hk; [eauto|]. exact (C Hdd).
+    + intros q Hn. destruct (decide (q = pid)) as [->|Hne]; [congruence|].
+      destruct (Hoth q Hne) as [Hwq [Hvis _]]. rewrite Hvis. apply HI2. congruence.
+  Qed.
+
+  Lemma Inv_fetch_missing s now pid outs :
+    Inv s -> Forall wf_fetch outs -> Inv (fetch_missing need_merge ttl now pid outs s).1.
+  Proof.
+    intros HI Hwf. unfold fetch_missing.
+    destruct (st_write s !! pid); [destruct (view s pid)|]; try exact HI; apply Inv_miss; assumption.
+  Qed.
+
   Lemma Inv_get s now pid outs : Inv s -> Forall wf_fetch outs -> Inv (get now pid outs s).1.
   Proof.
     intros HI Hwf.
     destruct (view s pid) as [v|] eqn:Hv.
     - rewrite (get_hit _ _ _ _ _ Hv). exact HI.
-    - destruct (get_miss_spec now pid outs s HI Hv) as (Hw & Hview & Hseq & Hoth).
-      destruct (miss_entry_ok s now outs Hwf) as (Hok & Hd & Hsq).
-      set (s' := (get now pid outs s).1) in *.
-      destruct HI as [HI1 HI2]. split.
-      + intros q e He. destruct (decide (q = pid)) as [->|Hne].
-        * rewrite Hw in He. inversion He; subst e. split_and!; [exact Hok|rewrite Hseq, Hsq; lia|].
-          intros _. exact Hview.
-        * destruct (Hoth q Hne) as [Hwq [_ Hk]]. rewrite Hwq in He.
-          destruct (HI1 q e He) as (A & B & C). split_and!; [exact A|rewrite Hseq; exact B|].
-          intro Hdd. apply Hk; [eauto|]. exact (C Hdd).
-      + intros q Hn. destruct (decide (q = pid)) as [->|Hne]; [congruence|].
-        destruct (Hoth q Hne) as [Hwq [Hvis _]]. rewrite Hvis. apply HI2. congruence.
+    - rewrite (get_miss_unfold _ _ _ _ Hv). apply Inv_miss; assumption.
   Qed.
 
   Lemma Inv_step s o : Inv s -> wf_op o -> Inv (step s o).1.
@@ -885,7 +899,7 @@ Section Proofs.
     destruct (get_miss_spec now pid outs s HI Hv) as (_ & Hview & _).
     fold s1 in Hview. rewrite (miss_entry_no_found _ _ _ Hnf) in Hview.
     split_and!.
-    - rewrite (get_miss_unfold _ _ _ _ Hv). cbn [snd]. rewrite (miss_entry_no_found _ _ _ Hnf). reflexivity.
+    - rewrite (get_miss_unfold _ _ _ _ Hv). unfold C06_PCache.miss. cbn [snd]. rewrite (miss_entry_no_found _ _ _ Hnf). reflexivity.
     - exact Hview.
     - intros now' outs'. apply get_hit. exact Hview.
   Qed.
@@ -990,6 +1004,117 @@ Section Proofs.
     - destruct (refresh_seen s now outs w1 c pid HI Hwf Hw Hne) as (e1' & He1' & Hw' & _).
       rewrite He1 in He1'. inversion He1'; subst e1'.
       eexists; split; [exact Hw'|]. cbn [ctime e_last] in *. rewrite Hct. lia.
+  Qed.
+
+  (* ---------------------------------------------------------------- *)
+  (* what readers see of a provider never goes back in time while it stays visible
+     (used by C07: successive reads of one caller)                                  *)
+
+  Definition Inv2 (s : state) : Prop :=
+    forall pid e r, st_write s !! pid = Some e -> visible s pid = Some r ->
+      (eff_time r <= ctime (Some e))%Z.
+
+  Lemma Inv2_init : Inv2 init.
+  Proof. intros pid e r H. cbn in H. rewrite lookup_empty in H. discriminate. Qed.
+
+  Lemma visible_view s pid r : visible s pid = Some r -> view s pid = Some (Some r).
+  Proof. unfold visible, vis. destruct (view s pid) as [[x|]|]; intro H; inversion H; reflexivity. Qed.
+
+  Lemma refresh_visible_monotone s now outs :
+    Inv s -> Inv2 s -> Forall wf_src outs ->
+    let s' := (refresh now outs s).1 in
+    Inv2 s' /\
+    forall pid r r', visible s pid = Some r -> visible s' pid = Some r' -> (eff_time r <= eff_time r')%Z.
+  Proof.
+    intros HI H2 Hwf s'. unfold s'. rewrite refresh_unfold.
+    destruct (walk (st_seq s + 1) outs (st_write s) 0) as [[w1 b] c] eqn:Hw.
+    destruct b; cbn [fst].
+    - (* cancelled: the snapshot is untouched, times held only grow *)
+      destruct (walk_spec _ _ _ _ _ _ _ Hw) as (Hl & _ & _). split.
+      + intros pid e r He Hv. cbn [st_write] in He. rewrite Hl in He.
+        assert (Hv0 : visible s pid = Some r) by exact Hv.
+        destruct (wreps pid outs) as [|r0 rs0] eqn:Er.
+        * rewrite entry_after_nil in He. exact (H2 pid e r He Hv0).
+        * assert (Hne : r0 :: rs0 <> []) by discriminate.
+          pose proof (Forall_wf_wreps pid outs Hwf) as Hwr. rewrite Er in Hwr.
+          destruct (entry_after_spec (st_seq s + 1) (r0 :: rs0) (st_write s !! pid)
+                      (Inv_oentry_ok s pid HI) Hwr Hne) as (e1 & He1 & _ & _ & _ & _ & Hct & _).
+          rewrite He1 in He. inversion He; subst e1. rewrite Hct.
+          destruct (st_write s !! pid) as [e0|] eqn:E0.
+          -- pose proof (H2 pid e0 r E0 Hv0). lia.
+          -- destruct HI as [_ HI2]. rewrite (HI2 pid E0) in Hv0. discriminate.
+      + intros pid r r' Hv Hv'. assert (Heq : visible (State (st_seq s + 1) w1 (st_rm s) (st_ru s)) pid = visible s pid) by reflexivity.
+        rewrite Heq, Hv in Hv'. inversion Hv'; subst. lia.
+    - assert (HI' : Inv (refreshed s now w1)) by (eapply Inv_refresh_complete; eauto).
+      assert (Hstep : forall pid r', visible (refreshed s now w1) pid = Some r' ->
+                (forall r, visible s pid = Some r -> (eff_time r <= eff_time r')%Z) /\
+                (forall e', st_write (refreshed s now w1) !! pid = Some e' -> (eff_time r' <= ctime (Some e'))%Z)).
+      { intros pid r' Hv'.
+        destruct (wreps pid outs) as [|r0 rs0] eqn:Er.
+        - pose proof (refresh_unseen s now outs w1 c pid HI Hw Er) as H. cbn zeta in H.
+          destruct (st_write s !! pid) as [e0|] eqn:E0.
+          + assert (Hk : forall e', st_write (refreshed s now w1) !! pid = Some e' -> e_last e' = e_last e0 ->
+                      keeps s (refreshed s now w1) pid ->
+                      (forall r, visible s pid = Some r -> (eff_time r <= eff_time r')%Z) /\
+                      (forall e'', st_write (refreshed s now w1) !! pid = Some e'' -> (eff_time r' <= ctime (Some e''))%Z)).
+            { intros e' He' Hlast [_ Hvis]. rewrite Hvis in Hv'. split.
+              - intros r Hr. rewrite Hr in Hv'. inversion Hv'; subst. lia.
+              - intros e'' He''. rewrite He' in He''. inversion He''; subst e''.
+                pose proof (H2 pid e0 r' E0 Hv'). cbn [ctime] in *. rewrite Hlast. lia. }
+            destruct (e_expires e0) as [x|].
+            * destruct (x <? now)%Z; [destruct H as [_ Hn]; congruence|].
+              destruct H as [Hw' Hkeep]. eapply Hk; eauto.
+            * destruct H as [Hw' Hkeep]. eapply Hk; eauto.
+          + destruct H as [_ Hn]. congruence.
+        - assert (Hne : wreps pid outs <> []) by (rewrite Er; discriminate).
+          destruct (refresh_seen s now outs w1 c pid HI Hwf Hw Hne) as (e1 & He1 & Hw' & Hview').
+          destruct (entry_after_spec (st_seq s + 1) (wreps pid outs) (st_write s !! pid)
+                      (Inv_oentry_ok s pid HI) (Forall_wf_wreps pid outs Hwf) Hne)
+            as (e1' & He1' & _ & _ & Hok1 & _ & Hct & _).
+          rewrite He1 in He1'. inversion He1'; subst e1'.
+          apply visible_view in Hv'. rewrite Hview' in Hv'. inversion Hv' as [Hp].
+          unfold entry_ok in Hok1. rewrite Hp in Hok1. destruct Hok1 as [Ht _].
+          split.
+          + intros r Hr. destruct (st_write s !! pid) as [e0|] eqn:E0.
+            * pose proof (H2 pid e0 r E0 Hr). cbn [ctime] in *. lia.
+            * destruct HI as [_ HI2]. rewrite (HI2 pid E0) in Hr. discriminate.
+          + intros e' He'. rewrite Hw' in He'. inversion He'; subst e'. cbn [ctime e_last]. lia. }
+      split.
+      + intros pid e r He Hv. destruct (Hstep pid r Hv) as [_ H]. exact (H e He).
+      + intros pid r r' Hv Hv'. destruct (Hstep pid r' Hv') as [H _]. exact (H r Hv).
+  Qed.
+
+  Lemma miss_visible_monotone s now pid outs :
+    Inv s -> Inv2 s -> Forall wf_fetch outs -> visible s pid = None ->
+    let s' := (miss now pid outs s).1 in
+    Inv2 s' /\
+    forall q r r', visible s q = Some r -> visible s' q = Some r' -> (eff_time r <= eff_time r')%Z.
+  Proof.
+    intros HI H2 Hwf Hnone s'.
+    destruct (miss_spec now pid outs s HI) as (Hw & Hview & _ & Hoth). fold s' in Hw, Hview, Hoth.
+    destruct (miss_entry_ok s now outs Hwf) as (Hok & _ & _).
+    split.
+    - intros q e r He Hv. destruct (decide (q = pid)) as [->|Hne].
+      + rewrite Hw in He. inversion He; subst e. apply visible_view in Hv. rewrite Hview in Hv.
+        inversion Hv as [Hp]. unfold entry_ok in Hok. rewrite Hp in Hok. cbn [ctime]. lia.
+      + destruct (Hoth q Hne) as [Hwq [Hvis _]]. rewrite Hwq in He. rewrite Hvis in Hv. exact (H2 q e r He Hv).
+    - intros q r r' Hv Hv'. destruct (decide (q = pid)) as [->|Hne]; [congruence|].
+      destruct (Hoth q Hne) as [_ [Hvis _]]. rewrite Hvis, Hv in Hv'. inversion Hv'; subst. lia.
+  Qed.
+
+  Lemma fetch_missing_visible_monotone s now pid outs :
+    Inv s -> Inv2 s -> Forall wf_fetch outs ->
+    let s' := (fetch_missing need_merge ttl now pid outs s).1 in
+    Inv2 s' /\
+    forall q r r', visible s q = Some r -> visible s' q = Some r' -> (eff_time r <= eff_time r')%Z.
+  Proof.
+    intros HI H2 Hwf. unfold fetch_missing.
+    assert (Hid : Inv2 s /\ forall q r r', visible s q = Some r -> visible s q = Some r' -> (eff_time r <= eff_time r')%Z).
+    { split; [exact H2|]. intros q r r' A B. rewrite A in B. inversion B; subst. lia. }
+    destruct (st_write s !! pid) as [e|] eqn:Ew.
+    - destruct (view s pid) as [v|] eqn:Ev; [exact Hid|].
+      apply miss_visible_monotone; auto. unfold visible. rewrite Ev. reflexivity.
+    - apply miss_visible_monotone; auto. destruct HI as [_ HI2]. exact (HI2 pid Ew).
   Qed.
 End Proofs.
 
